@@ -1582,16 +1582,24 @@ ANNOTATION_ARGS = ["()", "int", "int, str", "int, str, float", "(int,)", "(int, 
 
 
 def annotation_fragments():
+    """A parameterised type written with 0..3 type arguments - declared, returned, CALLED as a constructor, and the
+    declared value then USED (indexed at 0..3, iterated, measured), also through a parameter that gets no argument
+    (so that it keeps the annotated type)."""
     out = []
     head = "from typing import List, Dict, Tuple, Set, Optional, Union, Callable, Iterable\n"
     for h in ANNOTATION_HEADS:
         frags = []
         for n, a in enumerate(ANNOTATION_ARGS):
             ann = "%s[%s]" % (h, a)
-            frags.append("value%d: %s = None\nprint(value%d)\n" % (n, ann, n))
-            frags.append("def func%d(param: %s) -> %s:\n    return param\nprint(func%d(None))\n" % (n, ann, ann, n))
+            frags.append("value%d: %s = None\nprint(value%d)\nfor element in value%d:\n    print(element)\n"
+                         "print(value%d[0], value%d[1], value%d[2], len(value%d))\n" % (n, ann, n, n, n, n, n, n))
+            frags.append("made%d = %s()\nprint(made%d)\nfilled%d = %s([])\nfor element in filled%d:\n    print(element)\n"
+                         % (n, ann, n, n, ann, n))
+            frags.append("def func%d(param: %s) -> %s:\n    return param\nprint(func%d(None))\nfor element in func%d():\n"
+                         "    print(element)\n" % (n, ann, ann, n, n))
             for k in (0, 1, 2, 3):
-                frags.append("def at%d_%d(param: %s):\n    return param[%d]\nprint(at%d_%d(None))\n" % (n, k, ann, k, n, k))
+                frags.append("def at%d_%d(param: %s):\n    return param[%d]\nprint(at%d_%d(None))\nprint(at%d_%d())\n"
+                             % (n, k, ann, k, n, k, n, k))
         out.append(("annotation/%s" % h, head, frags))
     return out
 
